@@ -7,6 +7,14 @@
 // wal/ and data/ (and every few mutations of the series index): each copy is the disk as a
 // `kill -9` at that instant would leave it. For WAL appends it also makes torn variants (the
 // record cut short, incl. exactly after its 5-byte header).
+// A second family of images is the disk after a *power loss*: the same copy with every WAL file cut
+// back to what its last completed Sync covered. Half of the histories run with
+// wal-sync-interval = 0 (every append is synced before the acknowledgement: the power-loss images
+// must satisfy the property too, and the order append -> Sync -> ack, data-file write -> Sync ->
+// rename is checked on the observed trace), the others with an interval that never fires (the
+// model must still predict the recovered rows; acknowledged batches may be lost there, which the
+// configuration allows). Batches may span two measurements (files of one flush are committed
+// measurement by measurement).
 // Phase 2 reopens a shard on every image (recovery = WAL replay + flush), dumps all rows and
 // compares with (a) the Lean model's prediction for the observed durable state, (b) the
 // property: exactly the last-write-wins replay of the acknowledged batches (a batch that was
@@ -92,6 +100,7 @@ type image struct {
 	acked    int // number of acknowledged batches when the image was taken
 	inflight int // index of the batch being written, or -1
 	torn     bool
+	pl       bool // power-loss image: un-synced WAL suffixes dropped
 	desc     string
 	opLine   string // durable state as the model sees it
 	class    string // finding class this durable state belongs to ("" = recovery must be exact)
@@ -125,6 +134,27 @@ type recorder struct {
 	paused, resume    chan struct{}
 	r                 *hx.Rng
 	tornPct           int
+	// sync discipline / power loss
+	sync0     bool               // wal-sync-interval = 0 for this history
+	fileLen   map[string]int64   // bytes written so far (wal and data files)
+	syncedLen map[string]int64   // bytes covered by the last completed Sync
+	walEnds   map[string][]int64 // wal file -> end offset of every record appended
+	plCnt     int
+	orderViol []string // write-path order violations seen on the trace (reported with the history)
+	msts      []string // measurements of this history, index = measurement number of the model
+}
+
+func (rc *recorder) mstNo(rel string) int {
+	// data/tssp/<measurement>/[out-of-order/]<file>
+	f := strings.Split(rel, "/")
+	if len(f) >= 3 {
+		for i, m := range rc.msts {
+			if f[2] == m {
+				return i
+			}
+		}
+	}
+	return -1
 }
 
 // reMutex is a mutex that the goroutine holding it may take again (fileops' local VFS
@@ -225,7 +255,7 @@ func relocateTxn(imgRoot, origRoot string) {
 // durable renders the durable state of an image directory for the model:
 //
 //	vis=<gen>:<o|u>,...   wal=<part>:<id>.<id>|<part>:...   torn=<id|->
-func (rc *recorder) durable(dir string, tornID int) (string, string) {
+func (rc *recorder) durable(dir string, tornID int, syncedOnly bool) (string, string) {
 	var vis []string
 	visGen := map[int]bool{}
 	visFile := map[string]bool{}
@@ -240,10 +270,10 @@ func (rc *recorder) durable(dir string, tornID int) (string, string) {
 		if strings.Contains(rel, "out-of-order") {
 			kind = "u"
 		}
-		if !ok {
+		if !ok || rc.mstNo(rel) < 0 {
 			vis = append(vis, "?"+rel)
 		} else {
-			vis = append(vis, fmt.Sprintf("%d:%s", g, kind))
+			vis = append(vis, fmt.Sprintf("%d:%s:%d", g, kind, rc.mstNo(rel)))
 			visGen[g] = true
 		}
 		return nil
@@ -284,9 +314,12 @@ func (rc *recorder) durable(dir string, tornID int) (string, string) {
 			flushPart()
 			cur, ids = f.part, nil
 		}
-		for _, id := range rc.walRecs[f.rel] {
+		for i, id := range rc.walRecs[f.rel] {
 			if id == tornID {
 				continue // a torn record is not durable
+			}
+			if syncedOnly && (i >= len(rc.walEnds[f.rel]) || rc.walEnds[f.rel][i] > rc.syncedLen[f.rel]) {
+				continue // not covered by a completed Sync: gone after a power loss
 			}
 			ids = append(ids, fmt.Sprint(id))
 			allIDs = append(allIDs, id)
@@ -432,20 +465,42 @@ func (rc *recorder) After(op, p, p2 string, n int64, err error) {
 	isWal := strings.HasPrefix(rel, "wal/")
 	isData := strings.HasPrefix(rel, "data/")
 	if op == "sync" {
-		return // content does not change
+		rc.syncedLen[rel] = rc.fileLen[rel] // content does not change; what is there is durable now
+		return
 	}
 	// bookkeeping for the model-level view
+	if op == "write" {
+		rc.fileLen[rel] += n
+	}
 	if isWal && op == "write" && rc.inflight >= 0 {
 		rc.walRecs[rel] = append(rc.walRecs[rel], rc.inflight)
+		rc.walEnds[rel] = append(rc.walEnds[rel], rc.fileLen[rel])
 	}
 	if isData && (op == "openfile" || op == "create") && strings.HasSuffix(rel, ".tssp.init") {
 		final := strings.TrimSuffix(rel, ".init")
 		rc.genFiles[rc.flushNo] = append(rc.genFiles[rc.flushNo], final)
 		rc.genOf[final] = rc.flushNo
+		rc.fileLen[rel], rc.syncedLen[rel] = 0, 0
 	}
 	if isData && op == "rename" {
 		rel2 := strings.TrimPrefix(strings.TrimPrefix(p2, rc.root), "/")
 		rc.genOf[rel2] = rc.flushNo
+		if strings.HasSuffix(rel, ".tssp.init") && rc.syncedLen[rel] != rc.fileLen[rel] {
+			rc.orderViol = append(rc.orderViol, fmt.Sprintf("%s: data file %s renamed into place with %d of its %d bytes covered by a Sync", rc.phase, rel, rc.syncedLen[rel], rc.fileLen[rel]))
+		}
+		rc.fileLen[rel2], rc.syncedLen[rel2] = rc.fileLen[rel], rc.syncedLen[rel]
+	}
+	if op == "remove" {
+		if isWal && rc.flushNo > 0 {
+			// the old WAL files go only after every data file of the flush is in place and synced
+			for _, f := range rc.genFiles[rc.flushNo] {
+				if rc.syncedLen[f] != rc.fileLen[f] || rc.fileLen[f] == 0 {
+					rc.orderViol = append(rc.orderViol, fmt.Sprintf("%s: WAL file %s removed while data file %s of the flush is not committed and synced", rc.phase, rel, f))
+				}
+			}
+		}
+		delete(rc.fileLen, rel)
+		delete(rc.syncedLen, rel)
 	}
 	if !rc.imaging {
 		return
@@ -471,11 +526,44 @@ func (rc *recorder) After(op, p, p2 string, n int64, err error) {
 			}
 			tornID = rc.inflight
 		}
-		line, class := rc.durable(dst, tornID)
+		line, class := rc.durable(dst, tornID, false)
 		rc.images = append(rc.images, &image{dir: dst, acked: rc.acked, inflight: rc.inflight, torn: torn,
 			desc: fmt.Sprintf("%s; after %s %s %s", rc.phase, op, rel, desc), opLine: line, class: class})
 	}
+	// the disk after a power loss at this instant: every WAL file cut back to its synced length
+	takePL := func() {
+		unsynced := false
+		for f, l := range rc.fileLen {
+			if strings.HasPrefix(f, "wal/") && rc.syncedLen[f] != l {
+				unsynced = true
+			}
+		}
+		if !unsynced {
+			return // the same as the process-kill image
+		}
+		rc.plCnt++
+		if !rc.sync0 && rc.plCnt%3 != 0 {
+			return
+		}
+		rc.n++
+		dst := filepath.Join(rc.imgRoot, fmt.Sprintf("img%05d", rc.n))
+		if e := copyTree(rc.root, dst); e != nil {
+			return
+		}
+		relocateTxn(dst, rc.root)
+		for f := range rc.fileLen {
+			if strings.HasPrefix(f, "wal/") {
+				os.Truncate(filepath.Join(dst, f), rc.syncedLen[f])
+			}
+		}
+		line, class := rc.durable(dst, -1, true)
+		rc.images = append(rc.images, &image{dir: dst, acked: rc.acked, inflight: rc.inflight, pl: true,
+			desc: fmt.Sprintf("%s; after %s %s (power loss: WAL files cut back to their synced length)", rc.phase, op, rel), opLine: line, class: class})
+	}
 	take(false, 0, "")
+	if isWal || isData {
+		takePL()
+	}
 	if isWal && op == "write" && n > 6 && rc.inflight >= 0 {
 		// torn variants of the record just appended: header only, one byte short, random cut
 		cuts := []int64{n - 5, 1}
@@ -488,11 +576,26 @@ func (rc *recorder) After(op, p, p2 string, n int64, err error) {
 	}
 }
 
-func genBatch(r *hx.Rng, hiWater int) []engx.Row {
+var mstNames = []string{"m", "n"}
+
+// opRow is the row as the model sees it: the series of the k-th measurement are numbered 100k+i.
+func opRow(x engx.Row) engx.Row {
+	for k, m := range mstNames {
+		if x.Mst == m {
+			x.Series += 100 * k
+		}
+	}
+	return x
+}
+
+func genBatch(r *hx.Rng, hiWater int, nMst int) []engx.Row {
 	n := 1 + r.Intn(4)
 	var rows []engx.Row
 	for i := 0; i < n; i++ {
 		row := engx.Row{Mst: "m", Series: r.Intn(nSeries), Fields: map[string]string{}}
+		if nMst > 1 && r.Chance(40) {
+			row.Mst = mstNames[1]
+		}
 		if r.Chance(45) {
 			row.T = r.Intn(nTimes)
 		} else {
@@ -529,8 +632,45 @@ type verdict struct {
 	line int
 }
 
+// dumpAll reads every measurement of the universe and renders the rows with the model's series
+// numbers (100k+i for the k-th measurement).
+func dumpAll(sh *engine.VerifShard) (string, error) {
+	var cells []string
+	split := false
+	for k, m := range mstNames {
+		rows, err := sh.Dump(m, engx.AllFields(), math.MinInt64, math.MaxInt64, true)
+		if err != nil {
+			return "", err
+		}
+		t := engx.DumpText(rows)
+		if strings.HasSuffix(t, " !split") {
+			split = true
+			t = strings.TrimSuffix(t, " !split")
+		}
+		body := strings.TrimPrefix(t, "rows ")
+		if body == "" {
+			continue
+		}
+		for _, c := range strings.Split(body, "|") {
+			if k > 0 {
+				if i := strings.IndexByte(c, ':'); i > 0 {
+					if sn, e := strconv.Atoi(c[:i]); e == nil {
+						c = fmt.Sprint(sn+100*k) + c[i:]
+					}
+				}
+			}
+			cells = append(cells, c)
+		}
+	}
+	out := "rows " + strings.Join(cells, "|")
+	if split {
+		out += " !split"
+	}
+	return out, nil
+}
+
 func recoverImage(img *image, nParts int) string {
-	var rows []engine.VerifRow
+	var text string
 	var err error
 	perr := hx.Safe(func() {
 		var sh *engine.VerifShard
@@ -540,7 +680,7 @@ func recoverImage(img *image, nParts int) string {
 		}
 		sh.DetachFromCompactor()
 		sh.FlushIndex()
-		rows, err = sh.Dump("m", engx.AllFields(), math.MinInt64, math.MaxInt64, true)
+		text, err = dumpAll(sh)
 		if cerr := sh.Close(); err == nil && cerr != nil {
 			err = cerr
 		}
@@ -552,18 +692,27 @@ func recoverImage(img *image, nParts int) string {
 	case err != nil:
 		return "err " + strings.SplitN(err.Error(), "\n", 2)[0]
 	}
-	return engx.DumpText(rows)
+	return text
 }
 
 func runHistory(c *hx.Ctx, r *hx.Rng, idx int, workers int) error {
-	root := engx.ScratchDir("c01")
-	imgRoot := engx.ScratchDir("c01img")
+	root := engx.FastScratchDir("c01")
+	imgRoot := engx.FastScratchDir("c01img")
 	defer os.RemoveAll(root)
 	defer os.RemoveAll(imgRoot)
 	nParts := []int{1, 2, 2, 4}[r.Intn(4)]
 	rc := &recorder{root: root, imgRoot: imgRoot, inflight: -1, walRecs: map[string][]int{}, genOf: map[string]int{},
 		genLo: map[int]int{}, genHi: map[int]int{}, genFiles: map[int][]string{}, nParts: nParts, r: r.Fork(), tornPct: 50,
-		paused: make(chan struct{}), resume: make(chan struct{})}
+		paused: make(chan struct{}), resume: make(chan struct{}),
+		fileLen: map[string]int64{}, syncedLen: map[string]int64{}, walEnds: map[string][]int64{}, msts: mstNames}
+	// wal-sync-interval: 0 (every append synced before the acknowledgement) or an interval that never
+	// fires during the history (only the switch of a flush syncs): the sync events are then a
+	// function of the history, not of the wall clock
+	rc.sync0 = r.Chance(50)
+	nMst := 1
+	if r.Chance(40) {
+		nMst = 2
+	}
 	fileops.SetVerifObserver(rc)
 	defer fileops.SetVerifObserver(nil)
 	sh, err := engine.VerifOpenShard(root, nParts)
@@ -572,6 +721,14 @@ func runHistory(c *hx.Ctx, r *hx.Rng, idx int, workers int) error {
 	}
 	sh.DetachFromCompactor()
 	sh.StopIndexBackground()
+	if rc.sync0 {
+		sh.SetWalSyncInterval(0)
+		c.Count("wal-sync-interval=0")
+	} else {
+		sh.SetWalSyncInterval(time.Hour)
+		c.Count("wal-sync-interval>0")
+	}
+	c.Count(fmt.Sprintf("measurements=%d", nMst))
 	c.Emit(fmt.Sprintf("open %d", idx), "ok")
 	c.Emit(fmt.Sprintf("parts %d", nParts), "ok")
 	c.Count(fmt.Sprintf("wal-partitions=%d", nParts))
@@ -591,27 +748,42 @@ func runHistory(c *hx.Ctx, r *hx.Rng, idx int, workers int) error {
 	}
 
 	doWrite := func(i int) error {
-		rows := genBatch(r, hiWater)
+		rows := genBatch(r, hiWater, nMst)
 		if warm > 0 && len(batches) > 0 && r.Chance(60) {
 			// overwrite a key of the previous batch: the order of replay then matters
 			prev := batches[len(batches)-1]
 			src := prev[r.Intn(len(prev))]
-			rows[0].Series, rows[0].T = src.Series, src.T
+			rows[0].Mst, rows[0].Series, rows[0].T = src.Mst, src.Series, src.T
+			// one field of the overwritten row (the first in name order: iterating the map would make the
+			// history depend on Go's map order)
+			var fns []string
 			for f := range src.Fields {
-				rows[0].Fields[f] = fmt.Sprintf("%s", map[string]string{"fi": fmt.Sprint(r.Intn(1000)), "ff": fmt.Sprintf("%016x", math.Float64bits(float64(r.Intn(64))/8)), "fb": fmt.Sprint(r.Intn(2)), "fs": fmt.Sprintf("v%d", r.Intn(50))}[f])
-				break
+				fns = append(fns, f)
+			}
+			sort.Strings(fns)
+			if len(fns) > 0 {
+				f := fns[0]
+				rows[0].Fields[f] = map[string]string{"fi": fmt.Sprint(r.Intn(1000)), "ff": fmt.Sprintf("%016x", math.Float64bits(float64(r.Intn(64))/8)), "fb": fmt.Sprint(r.Intn(2)), "fs": fmt.Sprintf("v%d", r.Intn(50))}[f]
 			}
 		}
 		var ts []string
+		var orows []engx.Row // the batch as the model and the spec see it
+		mstsOf := map[string]bool{}
 		for _, x := range rows {
-			ts = append(ts, x.Text())
+			o := opRow(x)
+			orows = append(orows, o)
+			ts = append(ts, o.Text())
+			mstsOf[x.Mst] = true
 			if x.T > hiWater {
 				hiWater = x.T
 			}
-			if seen[key{x.Series, x.T}] {
+			if seen[key{o.Series, o.T}] {
 				overwrite = true
 			}
-			seen[key{x.Series, x.T}] = true
+			seen[key{o.Series, o.T}] = true
+		}
+		if len(mstsOf) > 1 {
+			c.Count("batch:two-measurements")
 		}
 		rc.mu.Lock()
 		rc.inflight = len(batches)
@@ -619,11 +791,33 @@ func runHistory(c *hx.Ctx, r *hx.Rng, idx int, workers int) error {
 		rc.histOps++
 		rc.phase = fmt.Sprintf("history %d op %d write #%d (%s)", idx, i, len(batches), kinds)
 		rc.mu.Unlock()
-		batches = append(batches, rows)
-		c.Emit("write "+strings.Join(ts, ";"), "ack")
+		batches = append(batches, orows)
+		wl := c.Emit("write "+strings.Join(ts, ";"), "ack")
 		var werr error
 		perr := hx.Safe(func() { werr = sh.Write(engx.ToInflux(rows)) })
 		rc.mu.Lock()
+		// the acknowledgement: with wal-sync-interval = 0 the record must be covered by a Sync by now
+		if rc.sync0 && perr == "" && werr == nil {
+			id := len(batches) - 1
+			found := false
+			for f, ids := range rc.walRecs {
+				for i, x := range ids {
+					if x == id {
+						found = true
+						if i >= len(rc.walEnds[f]) || rc.walEnds[f][i] > rc.syncedLen[f] {
+							rc.orderViol = append(rc.orderViol, fmt.Sprintf("%s: batch #%d acknowledged while its WAL record in %s is not covered by a Sync (wal-sync-interval = 0)", rc.phase, id, f))
+						}
+					}
+				}
+			}
+			if !found {
+				rc.orderViol = append(rc.orderViol, fmt.Sprintf("%s: batch #%d acknowledged without a WAL append", rc.phase, id))
+			}
+		}
+		for _, v := range rc.orderViol {
+			c.Violation(wl, "", v)
+		}
+		rc.orderViol = nil
 		rc.inflight = -1
 		rc.inWrite = false
 		rc.acked = len(batches)
@@ -710,6 +904,12 @@ func runHistory(c *hx.Ctx, r *hx.Rng, idx int, workers int) error {
 		}
 	}
 	rc.on = false
+	rc.mu.Lock()
+	for _, v := range rc.orderViol {
+		c.Violation(c.Emit("trace-order", "ok"), "", v)
+	}
+	rc.orderViol = nil
+	rc.mu.Unlock()
 	if panicked == "" {
 		if perr := hx.Safe(func() { sh.Close() }); perr != "" {
 			return fmt.Errorf("close failed: %s", perr)
@@ -758,6 +958,17 @@ func runHistory(c *hx.Ctx, r *hx.Rng, idx int, workers int) error {
 		ok := answers[i] == specOf(batches, img.acked)
 		if !ok && img.inflight >= 0 && !img.torn {
 			ok = answers[i] == specOf(batches, img.inflight+1)
+		}
+		if img.pl {
+			c.Count("image:power-loss")
+			if !rc.sync0 {
+				// with a positive wal-sync-interval acknowledged batches may be lost by a power loss: the
+				// configuration allows it; the model must still predict what is recovered
+				if !ok {
+					c.Count("power-loss:acknowledged-batches-lost(interval>0)")
+				}
+				ok = true
+			}
 		}
 		c.Count("image:" + strings.Fields(strings.SplitN(img.desc, "; after ", 2)[1])[0])
 		if img.torn {
